@@ -31,7 +31,7 @@ def order_has_duplicates(order, case_sensitive):
 def _mk(inp):
     fields = [Field(k, "v%d" % i, 10 + i) for i, k in enumerate(inp["keys"])]
     entry = Entry("Article", "Key1", fields, start_line=5, raw="@Article{Key1, ...}")
-    before = String("s", '"x"', 0, '@string{s = "x"}')
+    before = String("JrnlS", '"x"', 0, '@string{JrnlS = "x"}')  # names of other blocks are not field keys
     other = Entry("book", "other", [Field("B", "1", 30), Field("a", "2", 31), Field("A", "3", 32)], start_line=29, raw="@book{other,...}")
     after = ExplicitComment("c", 40, "@comment{c}")
     return fields, entry, [before, entry, other, after]
